@@ -856,6 +856,15 @@ def main():
             rep.violation(dict(property=CID, what_broke=broken,
                                note="no configuration found on which the real simulator differs from the independent oracle within the budget"),
                           nofail=True)
+    # Q7 is a deviation from the property's literal wording ("exactly at the positive multiples of 1/f"): report it as the
+    # recorded known finding whenever such a domain was actually simulated in this run (the simulator, the model and the
+    # oracle agree on the (j+1/2)/f activation times; theorem activation_at_period_multiples_refuted).
+    known, _fixed = V.known_findings(CID)
+    if hist.get("shared_pin_opposite_edge", 0) > 0 and not rep.violations:
+        for k in known:
+            if k.startswith("shared-pin-opposite-edge"):
+                rep.known(f"shared-pin-opposite-edge {hist['shared_pin_opposite_edge']} derived-clock domains sharing the parent's pin with the opposite single edge "
+                          f"were simulated; their registers activate at (j+1/2)/f (e.g. corpus case c_q7: clock 2 at t=1/6)")
     shutil_rm(TMP)
     rep.finish()
 
